@@ -27,7 +27,7 @@ CLAIMED = {
  "C12": ("DESIGN.md §4 C12, §9", "Lock discipline: the sequential DashMap stand-in asserts in every write-locking operation that no guard of the same map is live on the calling path (shard-independent statement) — active in every harness of every family; termination: unwinding assertions on compute_fixture_cycles over cyclic dependency graphs and on the conftest walk.",
          "Single-threaded paths only (no lock-order inversion across threads); import-graph cycles need the import walk (C14)." + COMMON_NOTE),
  "C13": ("DESIGN.md §4 C13, §9.8", "The per-path decision of scan_workspace_with_excludes — the text of its filter_entry predicate (which directories are descended into) and of its walk-loop body (which yielded files are kept) is extracted from the current tree at every run and executed through CBMC; the directory walk itself is replaced by its contract (an entry is yielded iff the predicate accepted the root and every directory above it). Decided on concrete rows: the three file-name forms and their near misses; ignored directories (VCS, virtualenv, cache, build, *.egg-info) at depth 1 and 2 versus names that merely resemble them; RELOCATION — the same root-relative file is indexed whether the root is /w, /home/u/w, lies below a directory carrying an ignored name, or is itself so named; exclude patterns matched against root-relative paths, also after relocation.",
-         "Concrete rows (each row is one execution of the real blocks; a fully symbolic 9-byte file name is in the thorough tier); the walk (walkdir, FFI), unreadable / non-UTF-8 files (phase 2), the modules pulled in by imports (C14) and the 'site-packages' substring classification are NOT encoded; path components are ASCII (core::str::from_utf8 replaced by an ASCII-assuming stand-in in these harnesses, see evidence)." + COMMON_NOTE),
+         "Concrete rows (each row is one execution of the real blocks; a fully symbolic 9-byte file name was not decided in 40 min and is kept as props=ATTEMPT); the walk (walkdir, FFI), unreadable / non-UTF-8 files (phase 2), the modules pulled in by imports (C14) and the 'site-packages' substring classification are NOT encoded; path components are ASCII (core::str::from_utf8 replaced by an ASCII-assuming stand-in in these harnesses, see evidence)." + COMMON_NOTE),
  "C15": ("DESIGN.md §4 C15, §9", "Recorded positions, kernels only: line-index arithmetic (get_line_from_offset / get_char_position_from_offset) against its specification for every strictly increasing index (<= 4 lines) and every offset; find_function_name_position on def-line templates (plain, async, indented, tab) compared with the true token span; the providers' line / range helpers (internal_line_to_lsp, lsp_line_to_internal, create_range, create_point_range; text extracted from src/providers/mod.rs at every run) for every u32 / usize argument.",
          "The spans the analyzer records for usages (UTF-16 columns, string-literal forms) need analyze_file on non-trivial ASTs and are out of solver reach (harnesses kept under props=ATTEMPT; the defects they show natively are listed in DESIGN.md §9.4); the call sites that pass spans to create_range in the handlers are outside." + COMMON_NOTE),
  "C16": ("DESIGN.md §4 C16, §9", "Cycle and scope-mismatch diagnostics of the real detect_fixture_cycles / detect_scope_mismatches_in_file against a reference dependency graph whose edges are resolved per depending file; all 25 scope pairs and definition lines symbolic per graph arm; both registration orders.",
